@@ -1117,7 +1117,7 @@ func literalTextRule(r *Run, rule string) {
 	}
 	// evaluator: both HTMLLiteral sites are the plain conversion
 	n := 0
-	for _, f := range w.compilerMethods() {
+	for _, f := range w.Funcs("") {
 		info := f.Pkg.TypesInfo
 		ast.Inspect(f.Decl.Body, func(nd ast.Node) bool {
 			bx, fld := ast.Expr(nil), (*types.Var)(nil)
